@@ -82,6 +82,13 @@ def n_outer(a):
     return s1(a)
 
 
+@memento_function(version="1")
+def n_top(a):
+    """two levels above the keyed call: the context arguments travel through every frame (second element: the same through a batch)"""
+    REC.calls.append(("n_top", dict(a=a)))
+    return [n_outer(a), n_outer.call_batch([{"a": a}])[0]]
+
+
 SIGS = {"s1": (s1, ["a"], []), "s2": (s2, ["a", "b"], []), "s3": (s3, ["a", "b", "c"], []),
         "s4": (s4, ["a", "b"], ["k", "m"]), "s5": (s5, ["alpha", "beta", "gamma", "delta", "eps"], []),
         "s6": (s6, ["factor", "value", "rev"], []), "s7": (s7, ["uri", "mode"], ["k", "m"])}
